@@ -1,0 +1,36 @@
+//go:build verif
+
+// Contracts for the linear layers and the S-box of the Poseidon2 permutation over this curve's scalar field
+// (comment-only; installed by /verif/gcv gen-contracts). Layer "ring fr.Element". The matrices are the published
+// Poseidon2 matrices: external circ(2,1) / circ(2,1,1); internal [[2,1],[1,3]] / [[2,1,1],[1,2,1],[1,1,3]].
+
+package poseidon2
+
+//@ func Permutation.matMulExternalInPlace
+//@ layer ring fr.Element
+//@ option distribute
+//@ requires len(input) == h.params.Width
+//@ requires h.params.Width == 2 || h.params.Width == 3
+//@ ensures[width2] h.params.Width == 2 ==> input[0] == 2*old(input[0]) + old(input[1]) && input[1] == old(input[0]) + 2*old(input[1])
+//@ ensures[width3] h.params.Width == 3 ==> input[0] == 2*old(input[0]) + old(input[1]) + old(input[2]) && input[1] == old(input[0]) + 2*old(input[1]) + old(input[2]) && input[2] == old(input[0]) + old(input[1]) + 2*old(input[2])
+//@ modifies input
+//@ end
+
+//@ func Permutation.matMulInternalInPlace
+//@ layer ring fr.Element
+//@ option distribute
+//@ requires len(input) == h.params.Width
+//@ requires h.params.Width == 2 || h.params.Width == 3
+//@ ensures[width2] h.params.Width == 2 ==> input[0] == 2*old(input[0]) + old(input[1]) && input[1] == old(input[0]) + 3*old(input[1])
+//@ ensures[width3] h.params.Width == 3 ==> input[0] == 2*old(input[0]) + old(input[1]) + old(input[2]) && input[1] == old(input[0]) + 2*old(input[1]) + old(input[2]) && input[2] == old(input[0]) + old(input[1]) + 3*old(input[2])
+//@ modifies input
+//@ end
+
+//@ func Permutation.sBox
+//@ layer ring fr.Element
+//@ option distribute
+//@ requires 0 <= index && index < len(input)
+//@ ensures[power] input[index] == pow(old(input[index]), 5)
+//@ ensures[others] forall(j, 0, len(input), j != index ==> input[j] == old(input[j]))
+//@ modifies input
+//@ end
